@@ -177,6 +177,19 @@ fn break_structure(rng: &mut Rng, kind: &str, text: &str) -> Option<(String, Str
         // no paragraph at all
         return Some(("no-paragraph".into(), rng.s(&["", "\n", "# only a comment\n", "\n\n# c\n\n"]).to_string()));
     }
+    if rng.chance(1, 10) {
+        // an optional field holding a value its type cannot represent: the typed value cannot carry what the
+        // lossless reader shows for it, so there must be no typed value
+        for (field, bogus) in [("Multi-Arch", "maybe"), ("Priority", "urgent"), ("Essential", "perhaps"), ("Installed-Size", "12 MB"), ("Enabled", "perhaps"), ("By-Hash", "sometimes"), ("Last-Update", "yesterday")] {
+            let key = format!("{field}: ");
+            if let Some(i) = text.find(&format!("\n{key}")).map(|i| i + 1).or(if text.starts_with(&key) { Some(0) } else { None }) {
+                let end = text[i..].find('\n').map(|e| i + e).unwrap_or(text.len());
+                let mut t = text.to_string();
+                t.replace_range(i + key.len()..end, bogus);
+                return Some((format!("unparsable-optional-{field}"), t));
+            }
+        }
+    }
     match rng.below(4) {
         0 if kind == "control" => {
             // no source paragraph
@@ -284,6 +297,22 @@ impl Scenario for C20 {
     fn generate(rng: &mut Rng, _tier: Tier, k: u64) -> Case {
         let kind = KINDS[(k as usize) % KINDS.len()];
         let mut text = typed::instance(rng, kind);
+        if matches!(kind, "apt-package" | "apt-source" | "apt-release" | "removal" | "dep3") && rng.chance(1, 10) {
+            // a comment block of its own before or after the stanza is not a paragraph
+            if rng.chance(1, 2) {
+                text = format!("# a note\n# about this stanza\n\n{text}");
+            } else {
+                text = format!("{}\n\n# trailing note\n", text.trim_end_matches('\n'));
+            }
+        }
+        if kind == "apt-source" && rng.chance(1, 4) {
+            // commas with and without a following blank separate the same names
+            if let Some(i) = text.find("Binary: ") {
+                let end = text[i..].find('\n').map(|e| i + e).unwrap_or(text.len());
+                let line = text[i..end].replace(", ", rng.s(&[",", " ,", ",  "]));
+                text.replace_range(i..end, &line);
+            }
+        }
         if rng.chance(1, 6) {
             // a whitespace-only continuation line inside a multi-line field: odd, but every reader takes it
             let lines: Vec<&str> = text.split_inclusive('\n').collect();
